@@ -88,9 +88,9 @@ def report(ctx, o, why):
     ctx.findings.append({"key": "pipeline:" + why.split(":")[0][:40], "what": why, "replay": path})
 
 
-def run_harness(ctx, n, seed, env=None, name="cases.jsonl", maxreq=1000):
+def run_harness(ctx, n, seed, env=None, name="cases.jsonl", maxreq=1000, wrap=()):
     args = ["-seed", seed, "-n", n, "-cancel", 0, "-maxreq", maxreq]
-    ok, _ = ctx.harness_run("c07", ["-out", name] + args, timeout=900, env=env)
+    ok, _ = ctx.harness_run("c07", ["-out", name] + args, timeout=900, env=env, wrap=wrap)
     if not ok:
         crash_finding(ctx, "c07", args, n + 2, env)
     return ctx.read_jsonl(os.path.join(ctx.work, name)) if ok else []
@@ -130,6 +130,16 @@ def run(ctx):
     if ctx.harness_build("c07"):
         rows = run_harness(ctx, 40 if quick else 400, ctx.seed)
         rows += run_harness(ctx, 50 if quick else 500, ctx.seed + 17, name="cases_small.jsonl", maxreq=100)
+        # the same engine in a process that may run on ONE cpu only (runtime.NumCPU() == 1: one-vCPU machines, cpusets)
+        import shutil
+        if shutil.which("taskset"):
+            cpu = sorted(os.sched_getaffinity(0))[0]
+            one = run_harness(ctx, 8 if quick else 60, ctx.seed + 41, name="cases_onecpu.jsonl", maxreq=100,
+                              wrap=("taskset", "-c", str(cpu)))
+            for o in one:
+                o["class"] = "onecpu:" + o["class"]
+            ctx.info.append("%d runs in a process confined to one cpu (runtime.NumCPU() == 1)" % len(one))
+            rows += one
         for i, o in enumerate(rows):
             o["case"] = i
         if not quick:
@@ -142,6 +152,8 @@ def run(ctx):
                           "wire": len(o["wire"] or []), "errors": len(o["errs"] or []), "fill_calls": o["fill_calls"],
                           "first_requests": reqs[:4]})
         why = spec_on_impl(o)
+        if why and o["class"].startswith("onecpu:"):
+            why = why.split(":")[0] + " [process confined to one cpu, runtime.NumCPU() == 1, %d generator workers asked for]:" % o["n"] + ":".join(why.split(":")[1:])
         if why:
             report(ctx, o, why)
     if model_ok and rows:
@@ -176,6 +188,22 @@ def run(ctx):
                     report(ctx, o, why)
             if ctx.findings:
                 break
+    if ctx.broken and not ctx.findings and (any("PacketFiller" in n for n in getattr(ctx, "source_diff", []))
+                                            or any("Fill" in str(b[0]) for b in ctx.broken)):
+        # a packet filler changed: the commands hand ONE filler to all packet workers ("for every number of generator
+        # workers"), so look for a written frame that is not the frame of its own request when the filler is shared by
+        # 8 goroutines (driver and oracle of C05)
+        from checks import c05
+        if ctx.harness_build("c05"):
+            for o in c05.run_harness(ctx, "filler_concurrent.jsonl", ["-seed", ctx.seed + 31, "-concurrent", 10 * c05.CONC_QUICK]):
+                why = c05.spec_on_impl(o)
+                if why:
+                    why = "one %s filler shared by the packet workers (8 goroutines): the frame built is not the frame of its request: %s" % (
+                        o.get("kind"), why)
+                    path = ctx.write_replay("filler-%s" % o.get("kind"), {"property": "C07", "what": why, "case": c05.describe(o),
+                                                                         "input": {k: o[k] for k in c05.INPUT_KEYS if k in o}})
+                    ctx.findings.append({"key": "filler:" + str(o.get("kind")), "what": why, "replay": path})
+                    break
     return ctx.finish(rule=RULE)
 
 
